@@ -33,17 +33,12 @@ import (
 	"fxverif/harness/hx"
 )
 
-// replay executes a history on a fresh app instance and returns the observation lines.
-func replay(h *detx.History, db string, dir string) ([]string, error) {
-	c, err := detx.NewChainDB(h.Genesis, db, dir)
-	if err != nil {
-		return nil, err
+// replay executes a history on a fresh app instance in the given replica mode and returns the observation lines.
+func replay(h *detx.History, mode, db, dir string) ([]string, map[string]int, error) {
+	if mode == "" {
+		mode = "plain"
 	}
-	lines := []string{fmt.Sprintf("h=0 apphash=%x", c.AppHash)}
-	for _, b := range h.Blocks {
-		lines = append(lines, c.RunBlock(b).Line())
-	}
-	return lines, nil
+	return replayMode(h, mode, db, dir, h.Seed*31+int64(len(mode)))
 }
 
 // TestC17Child is the body of a child process: replay the history file, write one observation line per block.
@@ -60,7 +55,7 @@ func TestC17Child(t *testing.T) {
 		t.Fatal(err)
 	}
 	cwd, _ := os.Getwd()
-	lines, err := replay(&h, os.Getenv("VERIF_C17_DB"), cwd)
+	lines, _, err := replay(&h, os.Getenv("VERIF_C17_MODE"), os.Getenv("VERIF_C17_DB"), cwd)
 	if err != nil {
 		t.Fatal(err)
 	}
@@ -73,16 +68,22 @@ type variation struct {
 	name string
 	env  []string
 	db   string
+	mode string // process history of the replica: plain | restart | restart-all | sim | sim-restart
 }
 
 var variations = []variation{
-	{"procs1-utc", []string{"GOMAXPROCS=1", "TZ=UTC"}, ""},
-	{"procs4-tokyo-gogc10", []string{"GOMAXPROCS=4", "TZ=Asia/Tokyo", "GOGC=10"}, ""},
-	{"procs16-newyork-leveldb", []string{"GOMAXPROCS=16", "TZ=America/New_York", "GODEBUG=madvdontneed=1"}, "goleveldb"},
-	{"procs2-kiritimati-gogc1", []string{"GOMAXPROCS=2", "TZ=Pacific/Kiritimati", "GOGC=1"}, ""},
-	{"procs8-abidjan-nopreempt", []string{"GOMAXPROCS=8", "TZ=Africa/Abidjan", "GODEBUG=asyncpreemptoff=1"}, ""},
-	{"procs32-lordhowe-gogc400", []string{"GOMAXPROCS=32", "TZ=Australia/Lord_Howe", "GOGC=400"}, "goleveldb"},
+	{"procs1-utc", []string{"GOMAXPROCS=1", "TZ=UTC"}, "", "plain"},
+	{"procs4-tokyo-gogc10-sim", []string{"GOMAXPROCS=4", "TZ=Asia/Tokyo", "GOGC=10"}, "", "sim"},
+	{"procs16-newyork-leveldb-restart", []string{"GOMAXPROCS=16", "TZ=America/New_York", "GODEBUG=madvdontneed=1"}, "goleveldb", "restart"},
+	{"procs2-kiritimati-gogc1", []string{"GOMAXPROCS=2", "TZ=Pacific/Kiritimati", "GOGC=1"}, "", "plain"},
+	{"procs8-abidjan-nopreempt-simrestart", []string{"GOMAXPROCS=8", "TZ=Africa/Abidjan", "GODEBUG=asyncpreemptoff=1"}, "", "sim-restart"},
+	{"procs32-lordhowe-gogc400-leveldb-restartall", []string{"GOMAXPROCS=32", "TZ=Australia/Lord_Howe", "GOGC=400"}, "goleveldb", "restart-all"},
 }
+
+// in-process replicas of every history (besides the generator's own instance, which also served the generator's
+// state reads and gas simulations): >= 8 executions in one process so that Go's per-range-statement randomisation of
+// map iteration gets enough draws, and every process-history mode is covered.
+var inprocModes = []string{"plain", "restart-all", "sim", "plain", "restart", "plain", "sim-restart", "plain"}
 
 func runChild(v variation, idx int, histPath, workDir string) ([]string, string, error) {
 	dir := filepath.Join(workDir, fmt.Sprintf("child%d-%s", idx, v.name))
@@ -101,7 +102,7 @@ func runChild(v variation, idx int, histPath, workDir string) ([]string, string,
 		}
 	}
 	env = append(env, v.env...)
-	env = append(env, "VERIF_C17_CHILD=1", "VERIF_C17_HISTORY="+histPath, "VERIF_C17_OBS="+obs, "VERIF_C17_DB="+v.db, "HOME="+filepath.Join(dir, "home"))
+	env = append(env, "VERIF_C17_CHILD=1", "VERIF_C17_HISTORY="+histPath, "VERIF_C17_OBS="+obs, "VERIF_C17_DB="+v.db, "VERIF_C17_MODE="+v.mode, "HOME="+filepath.Join(dir, "home"))
 	cmd.Env = env
 	outb, err := cmd.CombinedOutput()
 	if err != nil {
@@ -126,8 +127,38 @@ func describeHistory(h *detx.History, path string) []string {
 	return rep
 }
 
+// field returns the value of `name=` in an observation line.
+func field(line, name string) string {
+	for _, f := range strings.Fields(line) {
+		if strings.HasPrefix(f, name+"=") {
+			return f[len(name)+1:]
+		}
+	}
+	return ""
+}
+
+// txDetail names the first transaction of a block whose gas or result code differs between two observation lines.
+func txDetail(a, b string, kinds []string) string {
+	ga, gb := strings.Split(field(a, "gas"), ","), strings.Split(field(b, "gas"), ",")
+	ca, cb := strings.Split(field(a, "codes"), ","), strings.Split(field(b, "codes"), ",")
+	for i := 0; i < len(ga) && i < len(gb); i++ {
+		codeA, codeB := "?", "?"
+		if i < len(ca) && i < len(cb) {
+			codeA, codeB = ca[i], cb[i]
+		}
+		if ga[i] != gb[i] || codeA != codeB {
+			kind := "?"
+			if i < len(kinds) {
+				kind = kinds[i]
+			}
+			return fmt.Sprintf("; first differing tx #%d kind=%s gasUsed/gasWanted %s vs %s, code %s vs %s", i, kind, ga[i], gb[i], codeA, codeB)
+		}
+	}
+	return ""
+}
+
 // compare reports the first differing line between a reference execution and another one.
-func compare(out *hx.Out, h *detx.History, histPath, refName string, ref []string, name string, got []string) bool {
+func compare(out *hx.Out, h *detx.History, kinds [][]string, histPath, refName string, ref []string, name string, got []string) bool {
 	n := len(ref)
 	if len(got) > n {
 		n = len(got)
@@ -146,7 +177,7 @@ func compare(out *hx.Out, h *detx.History, histPath, refName string, ref []strin
 		fields := detx.DiffFields(a, b)
 		consensus := false
 		for _, f := range fields {
-			if f == "apphash" || f == "results" || f == "valupd" || f == "h" || f == "ntx" || f == "err" {
+			if f == "apphash" || f == "results" || f == "valupd" || f == "h" || f == "ntx" || f == "err" || f == "gas" || f == "codes" {
 				consensus = true
 			}
 		}
@@ -154,9 +185,18 @@ func compare(out *hx.Out, h *detx.History, histPath, refName string, ref []strin
 		if consensus {
 			cls = "consensus-relevant digest"
 		}
+		note, detail := "", ""
+		if i >= 1 && i-1 < len(h.Blocks) {
+			note = " [" + h.Blocks[i-1].Note + "]"
+			var k []string
+			if i-1 < len(kinds) {
+				k = kinds[i-1]
+			}
+			detail = txDetail(a, b, k)
+		}
 		rep := describeHistory(h, histPath)
 		rep = append(rep, "# "+refName+": "+a, "# "+name+": "+b)
-		out.ViolateWith(fmt.Sprintf("nondeterminism: block %d %s differs between executions (%s vs %s): %s", i, strings.Join(fields, "+"), refName, name, cls), rep)
+		out.ViolateWith(fmt.Sprintf("nondeterminism: block %d%s %s differs between executions (%s vs %s): %s%s", i, note, strings.Join(fields, "+"), refName, name, cls, detail), rep)
 		return false
 	}
 	return true
@@ -193,7 +233,7 @@ func TestC17(t *testing.T) {
 		ref := []string{fmt.Sprintf("h=0 apphash=%x", g.c.InitResp.AppHash)}
 		okBlocks := 0
 		for _, o := range g.obs {
-			ref = append(ref, o.Line())
+			ref = append(ref, obsLine(o))
 			if o.Err == "" {
 				okBlocks++
 			}
@@ -213,17 +253,25 @@ func TestC17(t *testing.T) {
 		}
 		out.Count(fmt.Sprintf("blocks:%d", len(g.obs)))
 
-		// (a) same process, second fresh app instance, decoded back from the file (what the children see)
+		// (a) same process: fresh app instances in every process-history mode, decoded back from the file (what the children see)
 		var h2 detx.History
 		if err = json.Unmarshal(bz, &h2); err != nil {
 			t.Fatal(err)
 		}
-		second, err := replay(&h2, "", workDir)
-		if err != nil {
-			t.Fatal(err)
+		for ri, mode := range inprocModes {
+			name := fmt.Sprintf("inproc-%d-%s", ri, mode)
+			lines, st, err := replayMode(&h2, mode, "", workDir, hseed*131+int64(ri))
+			for k, v := range st {
+				out.Stats.Hist["replica:"+mode+":"+k] += v
+			}
+			if err != nil {
+				out.ViolateWith(fmt.Sprintf("replica %s could not replay the history: %v", name, err), describeHistory(g.hist, histPath))
+				continue
+			}
+			executions++
+			out.Count("replica:" + mode)
+			compare(out, g.hist, g.kinds, histPath, "parent-generator", ref, name, lines)
 		}
-		executions++
-		compare(out, g.hist, histPath, "parent-generator", ref, "parent-second-instance", second)
 
 		// (b) fresh processes, started one second apart
 		type result struct {
@@ -250,7 +298,8 @@ func TestC17(t *testing.T) {
 				continue
 			}
 			executions++
-			compare(out, g.hist, histPath, "parent-generator", ref, name, res[ci].lines)
+			out.Count("replica:process-" + variations[ci].mode)
+			compare(out, g.hist, g.kinds, histPath, "parent-generator", ref, name, res[ci].lines)
 		}
 		// one summary op per history so the op stream records what was compared (the model answers `ok`)
 		out.Count(fmt.Sprintf("children:%d", nChild))
